@@ -51,10 +51,56 @@ def _split_top(txt, seps):
     return out
 
 
+INT_TYPES = ("usize", "isize", "u8", "u16", "u32", "u64", "u128", "i8", "i16", "i32", "i64", "i128")
+
+
+def unit_enums(whole, const_eval, env, skip):
+    """{enum name: {variant: discriminant}} for the field-less enums of the crate (explicit discriminants, else previous + 1)"""
+    out = {}
+    for m in re.finditer(r"\benum\s+(\w+)\s*\{", whole):
+        i = whole.index("{", m.end() - 1)
+        try:
+            j = _balanced(whole, i, "{", "}")
+        except Exception:
+            continue
+        body = re.sub(r"//[^\n]*|/\*.*?\*/", "", whole[i + 1:j - 1], flags=re.S)
+        body = re.sub(r"#\[[^\]]*\]", "", body)
+        tab, nxt, ok = {}, 0, True
+        for item in _split_top(body, [","]):
+            it = item.strip()
+            if not it:
+                continue
+            mm = re.fullmatch(r"(\w+)(?:\s*=\s*(.+))?", it, re.S)
+            if not mm:
+                ok = False
+                break
+            if mm.group(2) is not None:
+                v = const_eval(mm.group(2), env)
+                if v is None:
+                    ok = False
+                    break
+                nxt = v
+            tab[mm.group(1)] = nxt
+            nxt += 1
+        if ok and tab and set(tab) != set(skip):
+            out[m.group(1)] = tab
+    return out
+
+
 class Ev:
     def __init__(self, whole, const_eval, env, variants):
         self.whole, self.const_eval, self.env, self.variants = whole, const_eval, dict(env), variants
         self.depth = 0
+        self.enums = unit_enums(whole, const_eval, self.env, variants)
+
+    def subst_enum_paths(self, t):
+        """`Precedence::Dot` (a field-less enum of the crate other than the token type) reads as its discriminant"""
+        def rep(mm):
+            e, v = mm.group(1), mm.group(2)
+            if e in self.enums and v in self.enums[e]:
+                return str(self.enums[e][v])
+            return mm.group(0)
+        return re.sub(r"\b(?:\w+\s*::\s*)*?(\w+)\s*::\s*(\w+)\b(?!\s*(?:\(|::))", rep, t)
 
     # ---------------- patterns
     def pat_matches(self, pat, K):
@@ -131,6 +177,13 @@ class Ev:
             return self.eval_expr(t[7:].rstrip(";"), K, kind)
         if kind == "bool":
             return self.eval_bool(t, K)
+        mc = re.fullmatch(r"(.+?)\s+as\s+(?:%s)" % "|".join(INT_TYPES), t, re.S)
+        if mc:
+            inner = mc.group(1).strip()
+            while inner.startswith("(") and _balanced(inner, 0, "(", ")") == len(inner):
+                inner = inner[1:-1].strip()
+            return self.eval_expr(inner, K, kind)      # a cast between integer types / of a field-less enum to its discriminant
+        t = self.subst_enum_paths(t)
         m = re.fullmatch(r"\(?\s*\*?\s*self\s*\)?\s*\.\s*(\w+)\s*\(\s*\)", t)
         if m:
             return self.call(m.group(1), K, "usize")
@@ -272,8 +325,9 @@ class Ev:
         if self.depth > 12:
             raise NotUnderstood("recursion")
         try:
-            m = re.search(r"fn\s+%s\s*\(\s*&\s*self\s*\)\s*->\s*%s\s*\{" % (re.escape(name), kind), self.whole)
-            if not m:
+            m = re.search(r"fn\s+%s\s*\(\s*&\s*self\s*\)\s*->\s*(\w+)\s*\{" % re.escape(name), self.whole)
+            ret = m.group(1) if m else None
+            if not m or not (ret == kind or (kind == "usize" and (ret in INT_TYPES or ret in self.enums))):
                 raise NotUnderstood("fn %s -> %s not found" % (name, kind))
             i = self.whole.index("{", m.end() - 1)
             j = _balanced(self.whole, i, "{", "}")
